@@ -131,7 +131,7 @@ def repo_test_traces(rep: Report, wd: str):
 
 
 LEVELB = {"C02", "C03", "C06", "C09"}
-PASSES = {"C01", "C04"}      # checks that also drive the PassManager over two-module IRs
+PASSES = {"C01", "C02", "C04", "C05"}      # checks that also drive the PassManager over two-module IRs
 LEVELB_CASES = {"quick": 300, "thorough": 3000}
 
 
